@@ -581,7 +581,8 @@ def inline_predicates(repo: 'Repo', rel: str, cls: Optional[str], e: ast.expr) -
     return ast.fix_missing_locations(Sub().visit(clone(e)))
 
 
-def dispatch_return(stmts: Sequence[ast.stmt], var: str, const: str) -> Optional[ast.expr]:
+def dispatch_return(stmts: Sequence[ast.stmt], var: str, const: str, repo: Optional['Repo'] = None, rel: str = '',
+                    depth: int = 0) -> Optional[ast.expr]:
     """the expression returned by a statement list when the dispatch variable `var` holds the named constant `const`
     (compared by spelling): follows `if var == K` / `K == var` / `var != K` / `var in (K1, K2)` / `var in TABLE` chains where
     TABLE is a local dict / tuple / set literal, and resolves `TABLE[var]` in the returned expression. None: no return decided."""
@@ -634,7 +635,17 @@ def dispatch_return(stmts: Sequence[ast.stmt], var: str, const: str) -> Optional
                 if done:
                     return True, val
             elif isinstance(st, ast.Return):
-                return True, (ast.fix_missing_locations(Sub().visit(clone(st.value))) if st.value is not None else None)
+                v = st.value
+                # the dispatch may live in a private module-level helper that gets the variable as an argument
+                if repo is not None and depth < 2 and isinstance(v, ast.Call) and dotted(v.func).startswith('_') and repo.has_func(rel, dotted(v.func)):
+                    h = repo.func(rel, dotted(v.func))
+                    params = [a.arg for a in h.args.args]
+                    idx = [i for i, a in enumerate(v.args) if norm(a) == var]
+                    kw = [k.arg for k in v.keywords if norm(k.value) == var]
+                    pname = params[idx[0]] if idx and idx[0] < len(params) else (kw[0] if kw else None)
+                    if pname:
+                        return True, dispatch_return(h.body, pname, const, repo, rel, depth + 1)
+                return True, (ast.fix_missing_locations(Sub().visit(clone(v))) if v is not None else None)
             elif isinstance(st, ast.Raise):
                 return True, None
         return False, None
@@ -687,4 +698,176 @@ def inline_pure_temps(fn: FuncNode) -> FuncNode:
             continue
         body.append(st2)
     new.body = body
-    return ast.fix_missing_locations(new)
+    return relink(ast.fix_missing_locations(new))
+
+
+def expand_private_calls(repo: 'Repo', rel: str, fn: FuncNode, cls: Optional[str] = None, *, depth: int = 2,
+                         keep: Sequence[str] = ()) -> FuncNode:
+    """a copy of fn in which statement-level calls of PRIVATE helpers defined in the same class / module (`self._h(a, b)`,
+    `_h(a, b)`, also `return _h(..)` and `x = _h(..)` for single-return helpers) are replaced by the helper's body with the
+    parameters substituted - an extracted method reads like the code it was extracted from. helpers named in `keep` (the ones a
+    rule reasons about by name) are left as calls. arguments must be side-effect free expressions (names, attributes,
+    constants, arithmetic); otherwise the call is left alone."""
+    def helper_of(call: ast.Call) -> Optional[FuncNode]:
+        d = dotted(call.func)
+        name = d.split('.')[-1]
+        if not name.startswith('_') or name.startswith('__') or name in keep or call.keywords and any(k.arg is None for k in call.keywords):
+            return None
+        if d == f'self.{name}' and cls and repo.has_func(rel, f'{cls}.{name}'):
+            return repo.func(rel, f'{cls}.{name}')
+        if d == name and repo.has_func(rel, name):
+            return repo.func(rel, name)
+        return None
+
+    def pure(e: ast.AST) -> bool:
+        return not any(isinstance(x, (ast.Call, ast.Await, ast.Yield, ast.NamedExpr)) for x in ast.walk(e))
+
+    def bind(h: FuncNode, call: ast.Call) -> Optional[Dict[str, ast.expr]]:
+        params = [a.arg for a in h.args.args]
+        if params and params[0] == 'self':
+            params = params[1:]
+        if len(call.args) > len(params) or h.args.vararg or h.args.kwarg:
+            return None
+        b: Dict[str, ast.expr] = {}
+        for p_, a in zip(params, call.args):
+            b[p_] = a
+        for k in call.keywords:
+            if k.arg in params:
+                b[k.arg] = k.value
+        if set(b) != set(params) or not all(pure(v) for v in b.values()):
+            return None
+        # a parameter that the helper re-binds cannot be substituted
+        for x in ast.walk(h):
+            if isinstance(x, ast.Name) and isinstance(x.ctx, ast.Store) and x.id in b:
+                return None
+        return b
+
+    class Sub(ast.NodeTransformer):
+        def __init__(self, b: Dict[str, ast.expr]):
+            self.b = b
+
+        def visit_Name(self, node: ast.Name) -> ast.AST:
+            if isinstance(node.ctx, ast.Load) and node.id in self.b:
+                return clone(self.b[node.id])
+            return node
+
+    def body_of(h: FuncNode, b: Dict[str, ast.expr]) -> List[ast.stmt]:
+        out = []
+        for st in h.body:
+            if isinstance(st, ast.Expr) and isinstance(st.value, ast.Constant):
+                continue
+            out.append(Sub(b).visit(clone(st)))
+        return out
+
+    def only_tail_return(h: FuncNode) -> bool:
+        rets = [x for x in ast.walk(h) if isinstance(x, ast.Return)]
+        return all(r is h.body[-1] for r in rets)
+
+    def expand(stmts: List[ast.stmt], level: int) -> List[ast.stmt]:
+        out: List[ast.stmt] = []
+        for st in stmts:
+            for fld in ('body', 'orelse', 'finalbody'):
+                sub = getattr(st, fld, None)
+                if isinstance(sub, list) and sub and isinstance(sub[0], ast.stmt):
+                    setattr(st, fld, expand(sub, level))
+            if isinstance(st, ast.Try):
+                for hd in st.handlers:
+                    hd.body = expand(hd.body, level)
+            call = st.value if isinstance(st, (ast.Expr, ast.Return, ast.Assign)) and isinstance(getattr(st, 'value', None), ast.Call) else None
+            h = helper_of(call) if call is not None and level > 0 else None
+            b = bind(h, call) if h is not None and call is not None else None
+            if h is None or b is None:
+                out.append(st)
+                continue
+            hb = body_of(h, b)
+            if isinstance(st, ast.Expr) and not any(isinstance(x, ast.Return) and x.value is not None for x in ast.walk(h)) and only_tail_return(h):
+                out.extend(expand([x for x in hb if not isinstance(x, ast.Return)], level - 1))
+            elif isinstance(st, ast.Return) and st is stmts[-1]:
+                out.extend(expand(hb, level - 1))
+            elif isinstance(st, ast.Assign) and len(hb) == 1 and isinstance(hb[0], ast.Return) and hb[0].value is not None:
+                st.value = hb[0].value
+                out.append(st)
+            else:
+                out.append(st)
+        return out
+    new = clone(fn)
+    new.body = expand(new.body, depth)
+    return relink(ast.fix_missing_locations(new))
+
+
+def normalize_counting_whiles(fn: FuncNode) -> FuncNode:
+    """a copy of fn in which `i = A` ... `while i < B: <body>; i += C` (the counter is bound nowhere else in the loop, the body
+    has no `continue`, A/B/C are call-free) reads as `for i in range(A, B, C): <body>`."""
+    def fix(stmts: List[ast.stmt]) -> List[ast.stmt]:
+        out: List[ast.stmt] = []
+        for st in stmts:
+            for fld in ('body', 'orelse', 'finalbody'):
+                sub = getattr(st, fld, None)
+                if isinstance(sub, list) and sub and isinstance(sub[0], ast.stmt):
+                    setattr(st, fld, fix(sub))
+            if isinstance(st, ast.While) and isinstance(st.test, ast.Compare) and len(st.test.ops) == 1 and isinstance(st.test.ops[0], ast.Lt) \
+                    and isinstance(st.test.left, ast.Name) and st.body and not st.orelse:
+                i = st.test.left.id
+                last = st.body[-1]
+                inits = [k for k, x in enumerate(out) if isinstance(x, ast.Assign) and len(x.targets) == 1 and norm(x.targets[0]) == i]
+                ok = (isinstance(last, ast.AugAssign) and isinstance(last.op, ast.Add) and norm(last.target) == i and bool(inits)
+                      and not any(isinstance(x, ast.Continue) for b in st.body for x in ast.walk(b))
+                      and not any(isinstance(x, ast.Name) and isinstance(x.ctx, ast.Store) and x.id == i for b in st.body[:-1] for x in ast.walk(b))
+                      and not any(isinstance(x, ast.Call) for e in (last.value, st.test.comparators[0]) for x in ast.walk(e)))
+                if ok:
+                    init = out.pop(inits[-1])
+                    rng = ast.Call(func=ast.Name(id='range', ctx=ast.Load()), args=[init.value, st.test.comparators[0], last.value], keywords=[])
+                    new = ast.For(target=ast.Name(id=i, ctx=ast.Store()), iter=rng, body=st.body[:-1] or [ast.Pass()], orelse=[])
+                    ast.copy_location(new, st)
+                    out.append(new)
+                    continue
+            out.append(st)
+        return out
+    new = clone(fn)
+    new.body = fix(new.body)
+    return relink(ast.fix_missing_locations(new))
+
+
+def relink(tree: ast.AST) -> Any:
+    """(re)create the parent back-links the analyses use (`parent`, `ancestors`) after an AST was cloned / rewritten."""
+    for par in ast.walk(tree):
+        for child in ast.iter_child_nodes(par):
+            child._parent = par           # type: ignore[attr-defined]
+    return tree
+
+
+def comprehension_or_loop(fn: FuncNode) -> List[Tuple[ast.expr, ast.expr, Optional[str]]]:
+    """list-building folds of a function in either spelling: `[E for x in IT]` (any position) and
+    `acc = []; for x in IT: acc.append(E)` -> [(IT, E, loop variable)]."""
+    out: List[Tuple[ast.expr, ast.expr, Optional[str]]] = []
+    for n in ast.walk(fn):
+        if isinstance(n, ast.ListComp) and len(n.generators) == 1 and not n.generators[0].ifs:
+            g = n.generators[0]
+            out.append((g.iter, n.elt, norm(g.target)))
+        if isinstance(n, ast.For) and len(n.body) == 1 and isinstance(n.body[0], ast.Expr) and isinstance(n.body[0].value, ast.Call) \
+                and dotted(n.body[0].value.func).endswith('.append') and len(n.body[0].value.args) == 1 and not n.orelse:
+            out.append((n.iter, n.body[0].value.args[0], norm(n.target)))
+    return out
+
+
+def inline_module_constants(repo: 'Repo', rel: str, e: ast.expr) -> ast.expr:
+    """names bound exactly once at module level to a call-free expression (a lifted literal such as _BYTE_MASK = 0xFF or a tuple of
+    enum members) are replaced by that expression."""
+    mod = repo.mod(rel)
+    binds: Dict[str, ast.expr] = {}
+    counts: Dict[str, int] = {}
+    for st in mod.body:
+        tg = st.targets if isinstance(st, ast.Assign) else [st.target] if isinstance(st, ast.AnnAssign) and st.value is not None else []
+        for t in tg:
+            if isinstance(t, ast.Name):
+                counts[t.id] = counts.get(t.id, 0) + 1
+                if not any(isinstance(x, ast.Call) for x in ast.walk(st.value)):        # type: ignore[arg-type]
+                    binds[t.id] = st.value               # type: ignore[assignment]
+    binds = {k: v for k, v in binds.items() if counts.get(k) == 1 and k.startswith('_')}
+
+    class Sub(ast.NodeTransformer):
+        def visit_Name(self, node: ast.Name) -> ast.AST:
+            if isinstance(node.ctx, ast.Load) and node.id in binds:
+                return clone(binds[node.id])
+            return node
+    return ast.fix_missing_locations(Sub().visit(clone(e)))
